@@ -355,6 +355,12 @@ def check_behaviour(ctx, beh, table):
 
 
 def check_seq12_case(ctx, case):
+    # construction refused = violation seq/construct/<key>/construction_refused (modelgeom_real.construct), not a machinery failure
+    from cuqiverif.modelgeom_real import refusal_is_violation
+    return refusal_is_violation("seq/construct")(_check_seq12_case_body)(ctx, case)
+
+
+def _check_seq12_case_body(ctx, case):
     """--replay entry: one stored behaviour with the configurations it needs"""
     table = Table(case["D"], case["R"], case["cfgs"].values())
     check_behaviour(ctx, case["beh"], table)
